@@ -51,7 +51,7 @@ def rec_case(draw, level="function"):
             "gain": draw(st.sampled_from([1.0, 3.0, -0.2, 25.0])), "gsetup": draw(st.integers(0, 3)),
             "level": draw(st.sampled_from([1.0, 1.0, 1e-5, 1e4, 1e-9])),  # overall signal level (accelerations in g, strains, counts ...)
             "pov2": draw(st.sampled_from([0.0, 0.5, 0.25])), "method2": draw(st.sampled_from(["per", "cor"])),
-            "chanscale": draw(st.sampled_from([None, None, [0, 2e-5], [1, 3e4], [2, 1e-6]]))}  # one channel recorded in other units (a displacement transducer among accelerometers)
+            "chanscale": draw(st.sampled_from([None, None, [0, 2e-5], [1, 3e4], [2, 1e-6], [0, 1e-6], [1, 1e-7]]))}  # one channel recorded in other units (a displacement transducer among accelerometers)
 
 
 def _recording(case, ntot, independent=False):
